@@ -90,6 +90,10 @@ func collectAny(a any, ctx context.Context) (string, bool) {
 const collectGrace = 300 * time.Microsecond
 
 func runCollectCase(c *Case) string {
+	return quickGuard(func() string { return runCollectCase1(c) }, "res "+c.id+" harness-timeout")
+}
+
+func runCollectCase1(c *Case) string {
 	script, err := parseScript(c.get("src", "-"))
 	if err != nil {
 		return "res " + c.id + " bad-script"
@@ -117,7 +121,7 @@ func runCollectCase(c *Case) string {
 		}
 		return "res " + c.id + " " + o.s
 	case <-probe.played:
-	case <-time.After(5 * time.Second): // guard
+	case <-time.After(2 * time.Second): // guard
 		return "res " + c.id + " ret=0 vals=- err=- lctx=- stuck=before-played"
 	}
 	// the source has played its whole script: if the stream has ended, Collect returns now
@@ -144,7 +148,7 @@ func runCollectCase(c *Case) string {
 			return "res " + c.id + " " + o.s
 		}
 		return "res " + c.id + " ret=0 vals=- err=- lctx=-"
-	case <-time.After(5 * time.Second):
+	case <-time.After(2 * time.Second):
 		return "res " + c.id + " ret=0 vals=- err=- lctx=- stuck=hangs"
 	}
 }
